@@ -97,6 +97,7 @@ def parseNAct (mode : RxMode) (j : Json) : Except String NAct := do
     let m ← j.getObjValAs? String "m"
     pure (.ctlAuditEngine (match m with | "On" => .on | "RelevantOnly" => .relevantOnly | _ => .off))
   | "ctlAuditLogParts" => pure (.ctlAuditLogParts (← hexField j "k"))
+  | "setenv" => pure (.setenv (← hexField j "k") (← macroOf (← hexField j "v")))
   | "nop" => pure .nop
   | _ => throw s!"nact {n}"
 
